@@ -447,8 +447,8 @@ def check_url(s):
 
 def plan(tier):
     k = 12 if tier == 'quick' else 16
-    specs = [{'kind': 'machine', 'n': 110 if tier == 'quick' else 6000, 'k': i} for i in range(k)]
-    specs += [{'kind': 'stateless', 'n': 1500 if tier == 'quick' else 40000, 'k': i} for i in range(2 if tier == 'quick' else 4)]
+    specs = [{'kind': 'machine', 'n': 300 if tier == 'quick' else 6000, 'k': i} for i in range(k)]
+    specs += [{'kind': 'stateless', 'n': 4000 if tier == 'quick' else 40000, 'k': i} for i in range(2 if tier == 'quick' else 4)]
     return specs
 
 
